@@ -21,6 +21,7 @@ import (
 	"sync"
 	"sync/atomic"
 	"time"
+	"unicode/utf8"
 
 	"github.com/absolute8511/redcon"
 	zanredisdb "github.com/youzan/go-zanredisdb"
@@ -123,6 +124,7 @@ func runC15(c *vc.Ctx) error {
 	c.Ev.Assume("namespace names are valid names without ':' (the server rejects others at namespace creation); table and key bytes are arbitrary")
 	c.Ev.Assume("live partition lookup is exercised for hosted n only (quick 1,2,3,8; thorough also 5,16); n up to 1024 is covered through the exported hash functions and the modulo on the pk sum")
 	c.Ev.Assume("every partition is a single-replica raft group hosted in this process")
+	c.Ev.Assume("(b),(c): table names written through the protocol are valid UTF-8 (others crash the server via its metrics labels, a C11 finding); key parts are arbitrary bytes; (a) covers arbitrary table bytes")
 
 	if err := RouteLogs(filepath.Join(c.Scratch, "servers.log")); err != nil {
 		return err
@@ -347,7 +349,9 @@ var c15Types = []typeOps{
 func genUserKey(r *rand.Rand, uniq int) (string, []byte) {
 	for {
 		table, pk, _ := genPK(r)
-		if len(pk) == 0 || len(pk) > 2000 || len(table) == 0 || strings.Contains(table, ":") {
+		if len(pk) == 0 || len(pk) > 2000 || len(table) == 0 || strings.Contains(table, ":") || !utf8.ValidString(table) {
+			// tables that are not valid UTF-8 crash the server through its metrics labels
+			// (reported under C11: process-died/server.metricLoop); the key part stays arbitrary
 			continue
 		}
 		if bytes.IndexByte([]byte(table), ':') >= 0 {
@@ -388,7 +392,7 @@ func whoHolds(hosts []*Host, ns string, n int, t typeOps, full []byte, val strin
 }
 
 func c15Placement(c *vc.Ctx, s0 *Host, liveNs []int, eng string) {
-	perN := c.Pick(60, 600) // keys per n; each written once per data type
+	perN := c.Pick(150, 1200) // keys per n; each written once per data type
 	var fired int32
 	c.ParallelFor(len(liveNs), func(i int) {
 		n := liveNs[i]
@@ -444,7 +448,7 @@ func c15Placement(c *vc.Ctx, s0 *Host, liveNs []int, eng string) {
 // ---- (c) ------------------------------------------------------------------
 
 func c15NonOwner(c *vc.Ctx, hosts []*Host, split map[string][2][]int, eng string) {
-	perNs := c.Pick(40, 400)
+	perNs := c.Pick(150, 1500)
 	var fired int32
 	names := []string{"sp3", "sp8"}
 	c.ParallelFor(len(names), func(i int) {
@@ -715,7 +719,83 @@ func explainFirstPartitionOnly(m map[string]string, o mkOp, n int) string {
 	return "[" + strings.Join(parts, " ") + "]"
 }
 
+// c15DirectedMulti: the smallest multi-key cases, one per command and n: two
+// keys of different partitions. They double as minimal witnesses.
+func c15DirectedMulti(c *vc.Ctx, s0 *Host, liveNs []int, eng string) map[string]bool {
+	firedSig := map[string]bool{}
+	conn, err := Dial(s0.Addr(), 20*time.Second)
+	if err != nil {
+		c.Inconclusive("d: dial: " + err.Error())
+		return firedSig
+	}
+	defer conn.Close()
+	for _, n := range liveNs {
+		if n < 2 {
+			continue
+		}
+		ns := "p" + strconv.Itoa(n)
+		// two user keys in different partitions
+		ka, kb := "", ""
+		for i := 0; i < 1000 && kb == ""; i++ {
+			k := fmt.Sprintf("mkd:w%d", i)
+			if ka == "" {
+				ka = k
+			} else if zanredisdb.GetHashedPartitionID([]byte(k), n) != zanredisdb.GetHashedPartitionID([]byte(ka), n) {
+				kb = k
+			}
+		}
+		fa, fb := ns+":"+ka, ns+":"+kb
+		type step struct {
+			cmd  []string
+			want string
+			name string
+		}
+		steps := []step{
+			{[]string{"SET", fb, "vb"}, "+OK", "SET"},
+			{[]string{"MGET", fa, fb}, `[nil $"vb"]`, "MGET"},
+			{[]string{"MGET", fb, fa}, `[$"vb" nil]`, "MGET"},
+			{[]string{"EXISTS", fa, fb}, ":1", "EXISTS"},
+			{[]string{"SET", fa, "va"}, "+OK", "SET"},
+			{[]string{"EXISTS", fa, fb}, ":2", "EXISTS"},
+			{[]string{"MGET", fa, fb}, `[$"va" $"vb"]`, "MGET"},
+			{[]string{"DEL", fa, fb}, ":2", "DEL"},
+			{[]string{"EXISTS", fa, fb}, ":0", "EXISTS"},
+			{[]string{"MGET", fa, fb}, `[nil nil]`, "MGET"},
+		}
+		var hist [][]string
+		for _, st := range steps {
+			rs, err := conn.DoFramed(B(st.cmd...))
+			if err != nil {
+				c.Inconclusive("d: " + err.Error())
+				return firedSig
+			}
+			hist = append(hist, qargv(B(st.cmd...)))
+			got := renderReplies(rs)
+			c.Ev.Eval()
+			c.Ev.Count("d_directed_two_key_cases", 1)
+			c.Ev.Nontrivial(fmt.Sprintf("d-directed/%s/%d", st.name, n))
+			if got == st.want {
+				continue
+			}
+			sig := "multikey-mismatch/" + st.name
+			if st.name == "MGET" {
+				sig = "multikey-not-merged/MGET"
+			}
+			if !firedSig[sig] {
+				firedSig[sig] = true
+				c.Violation(sig, fmt.Sprintf("%d partitions, keys %q (partition %d) and %q (partition %d): %v answers %s, one store answers %s", n, fa, zanredisdb.GetHashedPartitionID([]byte(ka), n), fb, zanredisdb.GetHashedPartitionID([]byte(kb), n), st.cmd, got, st.want),
+					c15Witness{Part: "d", Engine: eng, N: n, Commands: append([][]string(nil), hist...), Detail: map[string]interface{}{"reply": got, "one_store_reply": st.want}})
+			}
+			if st.name != "MGET" && st.name != "EXISTS" {
+				break // later steps depend on this write
+			}
+		}
+	}
+	return firedSig
+}
+
 func c15MultiKey(c *vc.Ctx, s0 *Host, liveNs []int, eng string) {
+	directed := c15DirectedMulti(c, s0, liveNs, eng)
 	count := c.Pick(300, 3000)
 	ops := genMkOps(c.Rand(5000), count)
 	type run struct {
@@ -855,8 +935,8 @@ func c15MultiKey(c *vc.Ctx, s0 *Host, liveNs []int, eng string) {
 				expl = " (exactly what the first key's partition alone holds: the command was not split per partition)"
 			}
 			fired[sig]++
-			if fired[sig] > 2 {
-				continue
+			if fired[sig] > 1 || directed[sig] {
+				continue // counted; the directed two-key case already gave the minimal witness
 			}
 			// minimal witness: the SETs that create the keys of this command, then the command
 			var cmds [][]string
